@@ -103,7 +103,7 @@ func s1Shape14(c *vcore.Ctx) *s1Shape {
 	return sh
 }
 
-var c10S1, c11S1, c12S1 *vcore.Prop
+var c10S1, c11S1, c12S1, c14S1 *vcore.Prop
 
 func init() {
 	c11S1 = (&vcore.Prop{
@@ -126,7 +126,7 @@ func init() {
 		Init:        s1Init, StallLimit: 20 * time.Second, OnStall: func(*vcore.Ctx) *vcore.Violation { return nil },
 		Run: func(c *vcore.Ctx) *vcore.Violation { return s1RunHistory(c, s1Shape12(c)) },
 	})
-	register(&vcore.Prop{
+	c14S1 = (&vcore.Prop{
 		ID: "C14", Level: "exploration", Worlds: "S1",
 		Rule:        "one run = 1..8 Open/Symlink/Delete calls with batches of 0..12 items over a scratch tree in which adversarial objects (symlink to file/dir/FIFO/outside, dangling and self links, FIFO, socket, directory, unreadable file) are planted before each call; every returned descriptor is compared by (dev, inode), access mode and close-on-exec with the path requested at its index. distinct = hash of ordered event kinds plus planted kinds; non-trivial = something was planted or a fault/non-FIFO decision fired",
 		Components:  s1Components,
